@@ -649,6 +649,13 @@ class Subst(Family):
     <xs:element ref="s:noext" minOccurs="0" maxOccurs="unbounded"/>
   </xs:sequence></xs:complexType>
  </xs:element>
+ <xs:element name="m3" type="s:HT" substitutionGroup="s:head"/>
+ <xs:element name="m4" type="s:HT" substitutionGroup="s:head"/>
+ <xs:element name="m5" type="s:HT" substitutionGroup="s:head"/>
+ <xs:element name="need">
+  <xs:complexType><xs:sequence><xs:sequence><xs:element ref="s:head"/><xs:element name="tail" type="xs:string"/></xs:sequence>
+   </xs:sequence></xs:complexType>
+ </xs:element>
 </xs:schema>'''}
 
     def _doc(self, kids):
@@ -672,6 +679,9 @@ class Subst(Family):
         out.append(Doc('sg-valid-noext', self._doc([pool[0], '<s:noext><s:v>1</s:v></s:noext>', '<s:ne0/>'])))
         out.append(Doc('sg-noext-extension-member', self._doc([pool[1], '<s:ne1 m="true"/>', '<s:ne0/>']), 'fault:blocked'))
         out.append(Doc('sg-order', self._doc(['<s:blocked/>', pool[0]]), 'fault:structure'))
+        # a required head: the message of the incomplete content names the head and every member of its group
+        out.append(Doc('sg-need-empty', _decl() + '<s:need xmlns:s="urn:sg"/>', 'fault:structure'))
+        out.append(Doc('sg-need-member', _decl() + '<s:need xmlns:s="urn:sg"><s:m4/><s:tail>t</s:tail></s:need>'))
         return out
 
 
